@@ -238,6 +238,28 @@ def check_slicing(cname):
              'FanBeamGeometry': [T.FanBeamGeometry(apart, d1, 2.0, 3.0, src_to_det_init=(1, 1), translation=(1.0, 2.0)),
                                  T.FanBeamGeometry(apart, odl.uniform_partition(-0.5, 0.5, 4), 2.0, 3.0, det_curvature_radius=4.0, translation=(1.0, 2.0))],
              'ConeBeamGeometry': [T.ConeBeamGeometry(apart, d2, 2.0, 3.0, axis=(0, 1, 1), translation=(1.0, 2.0, 0.5), pitch=1.0, offset_along_axis=0.3)]}
+    # the same geometries with the vector arguments given as float ndarrays owned by the caller (the constructors keep references to them): the geometry and its slices must be those of the same values given as tuples
+    owned = {'Parallel2dGeometry': dict(det_pos_init=np.array([0.5, 1.5]), translation=np.array([1.0, 2.0])),
+             'Parallel3dAxisGeometry': dict(det_pos_init=np.array([0.5, -0.5, 0.2]), translation=np.array([1.0, 2.0, 0.5]), axis=np.array([1.0, 1.0, 0.0])),
+             'FanBeamGeometry': dict(src_to_det_init=np.array([1.0, 1.0]), translation=np.array([1.0, 2.0])),
+             'ConeBeamGeometry': dict(axis=np.array([0.0, 1.0, 1.0]), translation=np.array([1.0, 2.0, 0.5]))}
+    if cname in owned:
+        kw = owned[cname]
+        keep = {k: v.copy() for k, v in kw.items()}
+        if cname == 'Parallel2dGeometry':
+            g_arr, g_tup = T.Parallel2dGeometry(apart, d1, **kw), T.Parallel2dGeometry(apart, d1, **{k: tuple(v) for k, v in keep.items()})
+        elif cname == 'Parallel3dAxisGeometry':
+            g_arr, g_tup = T.Parallel3dAxisGeometry(apart, d2, **kw), T.Parallel3dAxisGeometry(apart, d2, **{k: tuple(v) for k, v in keep.items()})
+        elif cname == 'FanBeamGeometry':
+            g_arr, g_tup = T.FanBeamGeometry(apart, d1, 2.0, 3.0, **kw), T.FanBeamGeometry(apart, d1, 2.0, 3.0, **{k: tuple(v) for k, v in keep.items()})
+        else:
+            g_arr, g_tup = T.ConeBeamGeometry(apart, d2, 2.0, 3.0, **kw), T.ConeBeamGeometry(apart, d2, 2.0, 3.0, **{k: tuple(v) for k, v in keep.items()})
+        sub = g_arr[1:4]
+        a_ = g_arr.angles[2]
+        if not np.allclose(g_arr.det_refpoint(a_), g_tup.det_refpoint(a_)) or not np.allclose(sub.det_refpoint(a_), g_tup.det_refpoint(a_)):
+            return '%s built from float ndarrays %r: det_refpoint(%r) = %r (slice: %r), built from the same values as tuples: %r' % (
+                cname, {k: v.tolist() for k, v in keep.items()}, a_, g_arr.det_refpoint(a_), sub.det_refpoint(a_), g_tup.det_refpoint(a_))
+        geoms[cname] = geoms.get(cname, []) + [g_arr]
     for g in geoms.get(cname, []):
         a = g.angles[2]
         u = tuple(x[1] for x in g.det_grid.coord_vectors)
@@ -258,7 +280,7 @@ def check_slicing(cname):
 
 def replay(ob):
     parts = ob['unit'].split('/')
-    if parts[0] == 'slicing':
+    if parts[0] in ('slicing', 'slicing-native'):
         try:
             bad = check_slicing(parts[1])
         except Exception as e:
